@@ -102,6 +102,8 @@ static inline void label_features (const Case &c, Outcome &o) {
   if (f.narrow) o.label ("narrow_arg");
   if (f.blkarg) o.label ("blk_arg");
   if (f.multi_res) o.label ("multi_result");
+  if (f.wide) o.label ("wide_signature");
+  if (f.fp8) o.label ("fp_args_fill_all_xmm_arg_regs");
   long steps = 0;
   int back = 0, mem = 0, calls = 0, ext = 0;
   for (auto &s : c.stats) {
